@@ -16,6 +16,14 @@ CLAIMS = {
         "facts proved by CBMC code contracts (back end A, goto-instrument --dfcc --enforce-contract).",
    note=NOTE_COMMON + "Undecided remainder (not claimed): IEEE rounding inside each branch, f_PS/f_S/F1..F3 accuracy vs definition beyond the listed obligations, complex dilog.",
    technique="code contracts on extracted real functions: WP/SMT (z3 NRA) + CBMC DFCC contracts", design='5 C01'),
+ 'C03': dict(
+   text="Contracts on the real one-loop kernels: amu1LChi0 and amu1LChipm (with n^L, n^R, c^L, c^R, A/B combinations, x_im, x_k executed) equal the published neutralino/chargino "
+        "formulas written independently in the standard hep-ph/0609168 form, for ALL values of the reported masses, complex neutralino mixing, real smuon/chargino mixings, gauge and Yukawa "
+        "couplings; THDM amu1L equals the flavour-summed Eq.(27) of arXiv:1607.06292 minus the SM term for complex Yukawa matrices, amu1L_approx equals Eq.(27)-(30); the THDM parameter "
+        "filler hands exactly the documented getters to the kernel.  Loop functions are uninterpreted; the identities are discharged by ring normalisation.",
+   note=NOTE_COMMON + "The relation of masses/mixings to the Lagrangian parameters is C04 + A-LINALG (Haber-Kane/Takagi conventions assumed as documented); the numerical tolerance 1e-8 of the statement "
+        "concerns rounding, which is not covered; sympy ring normalisation is in the trusted base.",
+   technique="symbolic execution of the extracted kernels vs independent spec; ring normalisation (sympy)", design='5 C03'),
  'C04': dict(
    text="Contracts on the real generated MSSM mass-matrix code, for ALL real Lagrangian parameters: every entry of the nine sfermion matrices, the sneutrino, gauge-boson, "
         "fermion, gluino, neutralino and chargino mass matrices equals an independently written Lagrangian expression (one generic spec per sector with the generation "
